@@ -41,6 +41,21 @@ Theorem C02_snap_gop_starts_with_key : forall l,
 Proof. exact snap_gop_starts_with_key. Qed.
 Print Assumptions C02_snap_gop_starts_with_key.
 
+(* the cache goes by ARRIVAL order and packet kind only.  The identity of a model packet stands for
+   everything else a real packet carries (payload, sequence number, RTP / FLV timestamp); two
+   timestamp assignments of one packet list are two kind-preserving relabellings f1, f2 of it, and
+   both snapshots are the same selection of positions (the specification), each in its own
+   labelling: "most recent" never consults the timestamp field (monotone, wrapped past 2^32,
+   decreasing, equal ...) *)
+Theorem C02_cache_ignores_timestamps : forall f1 f2,
+  (forall p, p_kind (f1 p) = p_kind p) -> (forall p, p_kind (f2 p) = p_kind p) ->
+  forall gopon l,
+  let sel := spec_snap gopon l in
+  rc_snap (fold_left rc_add (map f1 l) (rc_empty gopon)) = map f1 sel /\
+  rc_snap (fold_left rc_add (map f2 l) (rc_empty gopon)) = map f2 sel.
+Proof. exact cache_ignores_timestamps. Qed.
+Print Assumptions C02_cache_ignores_timestamps.
+
 (* ---------------- B. the join is contiguous ---------------- *)
 
 (* lock discipline of the join mutex, any cache implementation, every schedule of a live stream
